@@ -109,6 +109,7 @@ func runC10(c *Ctx) {
 	c10AuthSites(c)
 	c10CredURL(c)
 	c10AuthChain(c)
+	c10CacheKey(c)
 }
 
 func c10Builder(c *Ctx, fn *ssa.Function, copySites []ssa.Instruction) {
@@ -704,3 +705,75 @@ var c10Canaries = []Canary{
 }
 
 func isNamed(t types.Type) bool { _, ok := t.(*types.Named); return ok }
+
+// c10CacheKey (R7): approved credentials are kept in an in-process cache and handed back for later requests. The
+// cache key must contain the protocol and the host(:port) of the request they were approved for — a key without
+// the protocol hands https credentials to a plain-http URL on the same host. Decided on the key function: the
+// attribute names it reads from the credential set include "protocol" and "host", and every cache access goes
+// through that function.
+func c10CacheKey(c *Ctx) {
+	p := c.P
+	kf := p.Fn("creds", "credCacheKey")
+	if kf == nil {
+		c.Missing("R7", "creds.credCacheKey", "not found")
+		return
+	}
+	reads := map[string]bool{}
+	for _, ci := range CallsIn(kf, "creds.FirstEntryForKey") {
+		if s, ok := ConstString(ci.Common().Args[1]); ok {
+			reads[s] = true
+		}
+	}
+	for _, b := range kf.Blocks {
+		for _, in := range b.Instrs {
+			if lk, ok := in.(*ssa.Lookup); ok {
+				if s, ok := ConstString(lk.Index); ok {
+					reads[s] = true
+				}
+			}
+		}
+	}
+	var ks []string
+	for k := range reads {
+		ks = append(ks, k)
+	}
+	sort.Strings(ks)
+	c.Check(reads["protocol"] && reads["host"], "R7", "cache-key:protocol+host", p.Pos(kf.Pos()), "the credential cache key is built from protocol, host (and path)",
+		fmt.Sprintf("the credential cache key is built from %v: without the protocol and the host credentials approved for one scheme/host are returned for another", ks))
+	// all accesses to the cache map use that key
+	n := 0
+	for _, fn := range p.RepoFuncs(func(s string) bool { return s == Mod+"/creds" }) {
+		if !strings.HasPrefix(FnName(fn), "(*creds.credentialCacher).") {
+			continue
+		}
+		for _, b := range fn.Blocks {
+			for _, in := range b.Instrs {
+				var key ssa.Value
+				switch x := in.(type) {
+				case *ssa.Lookup:
+					if _, f, _, ok := FieldOf(x.X); ok && f == "creds" {
+						key = x.Index
+					}
+				case *ssa.MapUpdate:
+					if _, f, _, ok := FieldOf(x.Map); ok && f == "creds" {
+						key = x.Key
+					}
+				}
+				if cc := AsCall(in); cc != nil {
+					if bi, ok := cc.Value.(*ssa.Builtin); ok && bi.Name() == "delete" {
+						if _, f, _, ok := FieldOf(cc.Args[0]); ok && f == "creds" {
+							key = cc.Args[1]
+						}
+					}
+				}
+				if key == nil {
+					continue
+				}
+				n++
+				kc, _, isRes := CallResult(key)
+				c.Check(isRes && kc.Call.StaticCallee() == kf, "R7", fmt.Sprintf("cache-access-uses-key#%d", n), p.InstrPos(in), "cache accessed under credCacheKey(creds)", "the credential cache is accessed under a key that is not credCacheKey of the request's attributes")
+			}
+		}
+	}
+	c.AtLeast("R7", "credential cache accesses", n, 3)
+}
